@@ -2087,5 +2087,8 @@ func Compile(chunk []ast.Stmt, name string) (proto *FunctionProto, err error) { 
 	context := newFuncContext(name, nil)
 	compileFunctionExpr(context, funcexpr, ecnone(0))
 	proto = context.Proto
+	// a main chunk is not defined on any line: linedefined and lastlinedefined are 0, as in
+	// Lua 5.1 (the line kept above only positions the final RETURN)
+	proto.LineDefined, proto.LastLineDefined = 0, 0
 	return
 } // }}}
